@@ -481,7 +481,21 @@ func (e *Engine) BuildQuery(facts []*Term, goal *Term, solver string, lenBound b
 				if len(s.Params) == 0 {
 					p("(assert %s)", body)
 				} else {
-					p("(assert %s)", Forall(s.Params, body, []*Term{app}))
+					pats := [][]*Term{{app}}
+					// a wrapper (body is one application over exactly the parameters, e.g. the projection of a
+					// result of an external function) is also instantiated from the wrapped term
+					if w := addFuel(s.Bodies[i], topFuel, rec); w.Op != "" && len(w.Args) == len(s.Params) && w.Op != "ite" && w.Op != "=" && w.Op != "and" && w.Op != "or" && w.Op != "not" {
+						same := true
+						for k, a := range w.Args {
+							if a.String() != s.Params[k].String() {
+								same = false
+							}
+						}
+						if same {
+							pats = append(pats, []*Term{w})
+						}
+					}
+					p("(assert %s)", Forall(s.Params, body, pats...))
 				}
 			}
 			continue
